@@ -192,12 +192,12 @@ def filt_case(draw):
     return dict(ntr=ntr, nx=nx, cover=cover, lo=lo, hi=hi, ranges=[list(covers[c]) for c in per_trace], direction=draw(st.sampled_from(['increasing', 'decreasing'])),
                 fam=draw(st.sampled_from(['random', 'linear', 'const'])), seed=draw(st.integers(0, 10 ** 6)), c=draw(st.sampled_from([3.0, -2.5, 1e3, 0.0])),
                 mask=draw(st.sampled_from([None, 'runs', 'runs'])), runs=[[draw(st.integers(0, ntr - 1)), draw(st.integers(1, nx - 30)), draw(st.integers(1, 25))] for _ in range(3)],
-                toair=draw(st.booleans()), wset=draw(st.sampled_from([False, False, True])), grid=draw(st.sampled_from(['log', 'log', 'log', 'linear-wide'])), maskval=draw(st.sampled_from([1, -1, 7, -2147483648])), alpha=draw(uf), beta=draw(uf), shift=[draw(uf) for _ in range(4)])
+                toair=draw(st.booleans()), wset=draw(st.sampled_from([False, False, True])), wfunc=draw(st.sampled_from(['legendre', 'chebyshev', 'poly', 'legendre'])), wxmin=draw(st.sampled_from([0, 0, 1, 500])), grid=draw(st.sampled_from(['log', 'log', 'log', 'linear-wide'])), maskval=draw(st.sampled_from([1, -1, 7, -2147483648])), alpha=draw(uf), beta=draw(uf), shift=[draw(uf) for _ in range(4)])
 
 
 def filt_body(case):
     from pydl.pydlspec2d.spec2d import filter_thru
-    from pydl.pydlutils.trace import xy2traceset
+    from pydl.pydlutils.trace import xy2traceset, traceset2xy
     ntr, nx = case['ntr'], case['nx']
     k = np.arange(nx, dtype='f8')
     rows = []
@@ -206,7 +206,7 @@ def filt_body(case):
         l0 = math.log10(case['ranges'][t][0]) + jit
         l1 = math.log10(case['ranges'][t][1]) + jit
         ll = l0 + (l1 - l0) * k / (nx - 1)
-        if case.get('grid') == 'linear-wide' and not case['wset']:
+        if case.get('grid') == 'linear-wide':
             # a grid linear in wavelength from the far UV to the near IR: d(log lambda) per pixel changes by a factor ~100 along the trace
             ll = np.log10(100.0 + (11000.0 - 100.0) * k / (nx - 1))
         rows.append(ll if case['direction'] == 'increasing' else ll[::-1].copy())
@@ -224,8 +224,12 @@ def filt_body(case):
     f2 = 0.2 + u2
     kw = dict(toair=case['toair'])
     if case['wset']:
-        xpos = np.tile(k, (ntr, 1))
-        kw['wset'] = xy2traceset(xpos, logwave, ncoeff=3, xmin=0, xmax=nx - 1, maxiter=0)
+        # the wavelength solution as a trace set: any of the three bases, columns numbered from 0, 1 or a CCD offset
+        x0_ = case.get('wxmin', 0)
+        xpos = np.tile(k + x0_, (ntr, 1))
+        kw['wset'] = xy2traceset(xpos, logwave, ncoeff=3 if case.get('grid') != 'linear-wide' else 6, xmin=x0_, xmax=x0_ + nx - 1, maxiter=0, func=case.get('wfunc', 'legendre'))
+        # what the trace set says the wavelengths are (the reference image for everything below, and for a second call with waveimg=)
+        wave = 10 ** np.asarray(traceset2xy(kw['wset'])[1], dtype='f8')
     else:
         kw['waveimg'] = wave
     mask = None
@@ -238,6 +242,15 @@ def filt_body(case):
     def run(flux):
         return np.asarray(call(filter_thru, flux.copy(), **kw), dtype='f8')
     r1, r2 = run(f1), run(f2)
+    if case['wset']:
+        # the same wavelengths handed over as an image give the same band fluxes
+        kw_img = dict(kw)
+        kw_img.pop('wset')
+        kw_img['waveimg'] = wave.copy()
+        r1_img = np.asarray(call(filter_thru, f1.copy(), **kw_img), dtype='f8')
+        with judge('wset-vs-waveimg'):
+            check(r1_img.shape == r1.shape and bool(np.all(np.abs(r1_img - r1) <= 1e-9 * max(1.0, np.abs(r1).max()))), 'filter:wset-and-waveimg-disagree',
+                  lambda: dict(maxdev=float(np.abs(r1_img - r1).max()), func=case.get('wfunc'), xmin=case.get('wxmin')))
     a, b = case['alpha'], case['beta']
     r12 = run(a * f1 + b * f2)
     rc = run(np.full((ntr, nx), case['c']))
